@@ -12,6 +12,8 @@ pub struct World {
     pub limit: usize,
     pub queries: Vec<String>,
     pub markers: (String, String),
+    /// the store is filled, configured, cleared and filled again before it is asked anything
+    pub refilled: bool,
 }
 
 #[derive(Clone, Copy)]
@@ -26,14 +28,16 @@ pub struct WorldOpts {
     pub distinct_ratings: bool,
     /// how often titles are built from the tiny vocabulary (many candidates per query)
     pub joined_shapes: bool,
+    /// also draw the harness's custom language (composes, never folds)
+    pub ext_langs: bool,
 }
 
 impl WorldOpts {
     pub fn find() -> WorldOpts {
-        WorldOpts { flavor: Flavor::Clean, min_recs: 1, max_recs: 10, fits_limit: true, dup_ids: false, queries: 0, distinct_ratings: false, joined_shapes: false }
+        WorldOpts { flavor: Flavor::Clean, min_recs: 1, max_recs: 10, fits_limit: true, dup_ids: false, queries: 0, distinct_ratings: false, joined_shapes: false, ext_langs: false }
     }
     pub fn highlight() -> WorldOpts {
-        WorldOpts { flavor: Flavor::Adversarial, min_recs: 1, max_recs: 6, fits_limit: false, dup_ids: true, queries: 2, distinct_ratings: false, joined_shapes: true }
+        WorldOpts { flavor: Flavor::Adversarial, min_recs: 1, max_recs: 6, fits_limit: false, dup_ids: true, queries: 2, distinct_ratings: false, joined_shapes: true, ext_langs: false }
     }
 }
 
@@ -56,7 +60,7 @@ fn joined_title(src: &mut Source, lang: &str, vocab: &[String]) -> String {
 }
 
 pub fn gen_world(src: &mut Source, o: WorldOpts) -> World {
-    let lang = gen_lang(src);
+    let lang = if o.ext_langs { gen_lang_ext(src) } else { gen_lang(src) };
     let vocab = gen_vocab(src, lang, o.flavor, 2, 7);
     let nrec = src.range(o.min_recs, o.max_recs);
     let ratings: Vec<usize> = if o.distinct_ratings { gen_distinct_ratings(src, nrec) } else { (0..nrec).map(|_| gen_rating(src)).collect() };
@@ -70,7 +74,8 @@ pub fn gen_world(src: &mut Source, o: WorldOpts) -> World {
     let limit = if o.fits_limit { limit.max(1) } else { limit };
     let titles: Vec<String> = recs.iter().map(|r| r.1.clone()).collect();
     let queries = (0..o.queries).map(|_| gen_query(src, lang, &titles, &vocab, o.flavor)).collect();
-    World { lang, recs, limit, queries, markers: ("[".into(), "]".into()) }
+    let refilled = src.chance(1, 8);
+    World { lang, recs, limit, queries, markers: ("[".into(), "]".into()), refilled }
 }
 
 impl World {
@@ -81,11 +86,19 @@ impl World {
             "records": self.recs.iter().map(|(id, t, r)| json!({"id": id, "title": show(t), "rating": r})).collect::<Vec<_>>(),
             "queries": self.queries.iter().map(|q| show(q)).collect::<Vec<_>>(),
             "markers": [show(&self.markers.0), show(&self.markers.1)],
+            "cleared_and_refilled_first": self.refilled,
         })
     }
     pub fn store(&self) -> lucid_suggest_core::Store {
         let mut s = build_store(self.lang, &self.recs, self.limit);
         s.highlight_with((&self.markers.0, &self.markers.1));
+        if self.refilled {
+            // a store that was cleared and refilled is a store like any other
+            s.clear();
+            for (id, t, r) in &self.recs {
+                s.add(lucid_suggest_core::Record::new(*id, t, *r, &s.lang));
+            }
+        }
         s
     }
 }
